@@ -159,7 +159,7 @@ fn all_pixels(w: u32, h: u32) -> Vec<(u32, u32)> {
 }
 
 pub fn run(ctx: &Ctx) -> Outcome {
-    let (bw, bh) = if ctx.quick() { (40u32, 33u32) } else { (130, 65) };
+    let (bw, bh) = if ctx.quick() { (100u32, 48u32) } else { (160, 65) };
     let mut sizes: Vec<(u32, u32, bool)> = vec![]; // (w, h, sampled pixels only)
     for w in 0..=bw {
         for h in 0..=bh {
